@@ -151,7 +151,9 @@ def _oto_apply(t, m, op, kk, vv, k2, v2):
                 return fail('oto_pop_present_keyerror'), m
         m = m_del(m, kk)
     elif name == 'pop_default':
-        r = t.pop(kk, vv)
+        # when the default equals the stored value, pass the stored object itself (identity with the default)
+        dflt = t[kk] if (_has(m, kk) and t[kk] == vv) else vv
+        r = t.pop(kk, dflt)
         exp = _val(m, kk) if _has(m, kk) else vv
         if not (r == exp):
             return fail('oto_pop_return'), m
